@@ -354,7 +354,8 @@ class Impl:
         if type(t) is self.Type:
             return True
         if isinstance(t, self.Tensor):
-            return isinstance(v, self.np.ndarray) and v.dtype == t.dtype and self.conforms_shape(v.shape, t.shape)
+            return (isinstance(v, self.np.ndarray) and (v.dtype == t.dtype or (v.dtype.kind == "U" and t.dtype.kind == "U"))
+                    and self.conforms_shape(v.shape, t.shape))
         if isinstance(t, self.Sequence):
             return isinstance(v, list) and all(self.conforms(x, t.elem_type) for x in v)
         if isinstance(t, self.Optional):
@@ -497,7 +498,7 @@ def build_spelling_table(impl):
         elif d.kind == "U":
             expect = int(onnx.TensorProto.STRING)
         else:
-            expect = onnx_map.get(d)
+            expect = onnx_map.get(d.newbyteorder("="))  # ONNX element types have no byte order
         try:
             t = impl.Tensor(obj)
             res = ("A", tid(t._elem_type), int(t._to_onnx().tensor_type.elem_type))
